@@ -10,11 +10,15 @@ mod canon;
 mod engine;
 mod entropy;
 mod gen;
+mod heap;
 mod pysrc;
 mod rng;
 mod simrun;
 
 use std::collections::BTreeMap;
+
+#[global_allocator]
+static GLOBAL: heap::SimHeap = heap::SimHeap;
 
 fn main() {
     let args: Vec<String> = std::env::args().collect();
